@@ -143,3 +143,14 @@ Proof. exact c07_only_verify_oracle_model. Qed.
 Print Assumptions C07_oracle_accepts_model_traces.
 Print Assumptions C07_promotion_only_by_verify.
 Print Assumptions C07_extended_oracle_accepts_model_traces.
+
+(** the same for histories with concurrent pairs (the oracle that [check_case] runs: with the
+    promotion-only-by-verify clause) *)
+From Jiva Require Import Ctl.OracleProofsX Ctl.OracleProofsX2.
+
+Theorem C07_oracle_accepts_model_traces_with_pairs : forall xs rf0 n w0, (1 <= rf0)%nat -> forallb xev_wf xs = true ->
+  walk (lift (fun prev e cur => c07_step rf0 prev e cur && c07_only_verify prev e cur) nopair) 0
+       (obs0 rf0 n w0) xs (trace n (Ctl.Model.init rf0 w0) xs) = None.
+Proof. exact c07_oracle_model_x. Qed.
+
+Print Assumptions C07_oracle_accepts_model_traces_with_pairs.
